@@ -155,13 +155,15 @@ func (g *gate) open() { g.ready.Wait(); close(g.start) }
 type reqShape struct {
 	kind    string
 	method  string
-	extra   string // additional header field lines
-	body    []byte // nil = no body
-	chunked bool   // body framing: chunked instead of Content-Length
-	expect  bool   // Expect: 100-continue
-	wait100 bool   // ... and the client waits up to 1.5 s for the interim response before it sends the body
-	upgrade string // protocol the request asks to switch to ("" = none)
-	gate    *gate  // non-nil: wait here with the connection open until the whole burst is ready
+	extra   string    // additional header field lines
+	body    []byte    // nil = no body
+	chunked bool      // body framing: chunked instead of Content-Length
+	expect  bool      // Expect: 100-continue
+	wait100 bool      // ... and the client waits up to 1.5 s for the interim response before it sends the body
+	upgrade string    // protocol the request asks to switch to ("" = none)
+	gate    *gate     // non-nil: wait here with the connection open until the whole burst is ready
+	ae      string    // non-empty: the value of the request's Accept-Encoding field (overrides acceptGzip)
+	dl      *download // client-abort-download: the download and the way the client abandons it (nil = downloads[0])
 }
 
 func shapeOf(kind string, k int) reqShape {
@@ -217,8 +219,14 @@ func exchange(addr, id, xff string, sh reqShape, acceptGzip bool, limit time.Dur
 		_ = c.SetDeadline(start.Add(limit))
 	}
 	extra, body, declared := sh.extra, sh.body, len(sh.body)
-	if acceptGzip {
+	switch {
+	case sh.ae != "":
+		extra += "Accept-Encoding: " + sh.ae + "\r\n"
+	case acceptGzip:
 		extra += "Accept-Encoding: gzip\r\n"
+	}
+	if tc, ok := c.(*net.TCPConn); ok && mode == abortDownload && sh.dl != nil && sh.dl.rcvbuf > 0 {
+		_ = tc.SetReadBuffer(sh.dl.rcvbuf) // a client that does not take the data off the wire quickly
 	}
 	if mode == abortUpload {
 		if body == nil { // a bodiless kind: the aborted upload is a POST that keeps the kind's other fields
@@ -293,10 +301,16 @@ func exchange(addr, id, xff string, sh reqShape, acceptGzip bool, limit time.Dur
 		return outcome{Ended: true, Status: 101, Elapsed: time.Since(start), Detail: "tunnel closed by the client"}
 	}
 	if mode == abortDownload {
-		buf := make([]byte, 1000)
-		if _, err := io.ReadFull(final.Body, buf); err != nil && isTimeout(err) {
-			return outcome{Ended: false, Elapsed: time.Since(start), Detail: "response body stalled"}
+		dl := sh.dl
+		if dl == nil {
+			dl = &downloads[0]
 		}
+		if dl.read > 0 {
+			if _, err := io.ReadFull(final.Body, make([]byte, dl.read)); err != nil && isTimeout(err) {
+				return outcome{Ended: false, Elapsed: time.Since(start), Detail: "response body stalled"}
+			}
+		}
+		time.Sleep(time.Duration(dl.waitMs) * time.Millisecond)
 		return outcome{Ended: true, Elapsed: time.Since(start), Detail: fmt.Sprintf("client aborted its download (status %d)", final.StatusCode)}
 	}
 	rbody, err := io.ReadAll(final.Body)
@@ -375,9 +389,11 @@ func switchScript(proto string) *lab.RespScript {
 
 // wellBehaved is what a backend that is not the target of a backend fault plays for request k of a
 // burst: 200 with a small body; for the upgrade kinds requests 0, 1, 4, 5 of a burst are answered 101
-// instead; under client-abort-download the 1 MiB download.
+// instead; under client-abort-download the download of the request's variant (downloads, afterwards.go).
 func wellBehaved(who, fault string, sh reqShape, k int) *lab.RespScript {
 	switch {
+	case fault == "client-abort-download" && sh.dl != nil:
+		return sh.dl.script()
 	case fault == "client-abort-download":
 		return downloadScript()
 	case sh.upgrade != "" && (k/2)%2 == 0:
@@ -494,9 +510,7 @@ func fullBody(s *lab.RespScript) ([]byte, bool) {
 	return s.Body, true
 }
 
-func downloadScript() *lab.RespScript {
-	return &lab.RespScript{Status: 200, Framing: "cl", Body: bigBody, Parts: parts(16, 64<<10), Fault: "slow-body", BarrierAfter: -1, Header: textPlain, Continue100: true}
-}
+func downloadScript() *lab.RespScript { return downloads[0].script() }
 
 // ---------------------------------------------------------------------------------------------
 // One lab: helios binary + GOOD and FAULTY raw backends
@@ -523,6 +537,7 @@ type world struct {
 	volleys   int
 	canary    *canary
 	lastFault time.Time
+	probeNo   int // recovery probes sent so far (their shapes rotate, see afterwards.go)
 }
 
 // Result of one executed case.
@@ -737,6 +752,11 @@ func (w *world) runStepOpt(run, idx int, s Step, opt stepOpt) (string, []outcome
 		if s.Fault == "client-abort-upload" && shapes[k].body == nil {
 			shapes[k].chunked = k%2 == 1
 		}
+		if s.Fault == "client-abort-download" {
+			shapes[k].dl = downloadOf(s, k)
+			shapes[k].ae = shapes[k].dl.ae
+			w.label("aborted-download:" + shapes[k].dl.name)
+		}
 		// the backend that is not the target plays the well-behaved answer; so does FAULTY under the
 		// two client faults (there the client is the one that misbehaves)
 		gs, fs := wellBehaved("good", s.Fault, shapes[k], k), faultScript(s.Fault, k, stalls(shapes[k]), s.Framing)
@@ -777,7 +797,7 @@ func (w *world) runStepOpt(run, idx int, s Step, opt stepOpt) (string, []outcome
 		case s.Fault == "client-abort-upload":
 			outs[k] = exchange(w.proxy, regs[k].id, xff, shapes[k], false, wedgeAfter, abortUpload)
 		case s.Fault == "client-abort-download":
-			outs[k] = exchange(w.proxy, regs[k].id, xff, shapes[k], true, wedgeAfter, abortDownload)
+			outs[k] = exchange(w.proxy, regs[k].id, xff, shapes[k], false, wedgeAfter, abortDownload) // Accept-Encoding: part of the download variant
 		default:
 			// requests 0, 1, 4, 5 of a burst accept gzip (so that under every strategy FAULTY sees both variants)
 			outs[k] = exchange(w.proxy, regs[k].id, xff, shapes[k], (k/2)%2 == 0, wedgeAfter, complete)
@@ -1250,27 +1270,31 @@ func (w *world) gaugesZero(when string) string {
 // stays ejected although it answers again.
 func (w *world) recovery(run int) string {
 	start := w.lastFault
-	probe := func() outcome {
+	probe := func() (int, outcome) {
 		id := w.nextID()
 		n := atomic.LoadInt64(&w.seq)
-		w.good.Expect(id, okScript("good"))
-		w.faulty.Expect(id, okScript("faulty"))
-		o := get(w.proxy, id, fmt.Sprintf("10.77.%d.%d", (n/250)%250, n%250+1), false)
+		i := w.nextProbe()
+		w.good.Expect(id, probeScript("good", i))
+		w.faulty.Expect(id, probeScript("faulty", i))
+		o := w.sendProbe(id, fmt.Sprintf("10.77.%d.%d", (n/250)%250, n%250+1), i)
 		w.good.Forget(id)
 		w.faulty.Forget(id)
-		return o
+		return i, o
 	}
 	var history []string
 	first := time.Duration(-1) // first success of the current run of consecutive successes
 	streak := 0                // consecutive successes
 	everOK := false
 	for {
-		o := probe()
+		shape, o := probe()
 		since := time.Since(start)
-		history = append(history, fmt.Sprintf("+%v: %v", since.Round(time.Millisecond), o))
+		history = append(history, fmt.Sprintf("+%v: %s: %v", since.Round(time.Millisecond), probeShapes[shape].name, o))
 		w.slowProbe(o)
 		if !o.Ended {
 			return fmt.Sprintf("(ii) wedged: run %d recovery probe had no end %v after it was sent; probes: %v", run, wedgeAfter, history)
+		}
+		if v := w.normally(run, "recovery", shape, o); v != "" {
+			return v + fmt.Sprintf("; probes: %v", tailStrs(history, 8))
 		}
 		if good := o.Status == 200 && o.Served != ""; good {
 			if streak == 0 {
@@ -1356,16 +1380,20 @@ func (w *world) recoverySwapped(run int) string {
 		id := w.nextID()
 		n := atomic.LoadInt64(&w.seq)
 		w.good.Expect(id, gone)
-		ex := w.faulty.Expect(id, okScript("faulty"))
-		o := get(w.proxy, id, fmt.Sprintf("10.78.%d.%d", (n/250)%250, n%250+1), false)
+		shape := w.nextProbe()
+		ex := w.faulty.Expect(id, probeScript("faulty", shape))
+		o := w.sendProbe(id, fmt.Sprintf("10.78.%d.%d", (n/250)%250, n%250+1), shape)
 		reached := lab.SeenOf(ex) != nil
 		w.good.Forget(id)
 		w.faulty.Forget(id)
 		since := time.Since(start)
-		history = append(history, fmt.Sprintf("+%v: %v", since.Round(time.Millisecond), o))
+		history = append(history, fmt.Sprintf("+%v: %s: %v", since.Round(time.Millisecond), probeShapes[shape].name, o))
 		w.slowProbe(o)
 		if !o.Ended {
 			return fmt.Sprintf("(ii) wedged: run %d recovery probe (roles swapped) had no end %v after it was sent; probes: %v", run, wedgeAfter, tailStrs(history, 12))
+		}
+		if v := w.normally(run, "recovery (roles swapped)", shape, o); v != "" {
+			return v + fmt.Sprintf("; probes: %v", tailStrs(history, 8))
 		}
 		if reached {
 			asked++
